@@ -677,6 +677,15 @@ func TestVerif_C28(t *testing.T) {
 		// the last epoch of the 16-bit space: a lost connection here exhausts the epoch counter
 		{Name: "last-epoch-two-phase", Buffer: 2, CloseMode: 2, Faults: 1, MaxConns: 2, StartEpoch: 0xFFFF, MaxBound: 2},
 	}
+	if only := os.Getenv("VERIF_C28_ONLY"); only != "" { // development knob: one scenario
+		var keep []c28Scenario
+		for _, sc := range scenarios {
+			if sc.Name == only {
+				keep = append(keep, sc)
+			}
+		}
+		scenarios = keep
+	}
 	totalStates := 0
 	for _, md := range modes {
 		md := md
